@@ -31,6 +31,20 @@ pub struct Col {
 pub struct Table {
     pub name: String,
     pub cols: Vec<Col>,
+    /// key groups declared at CREATE TABLE: (is primary key, column names)
+    pub keys: Vec<(bool, Vec<String>)>,
+    /// all constraints known for the table (incl. those added later), for checking observed contents:
+    /// NOT NULL column indices and key sets as column indices
+    pub not_null: Vec<usize>,
+    pub key_sets: Vec<Vec<usize>>,
+}
+
+/// setup step after the tables exist
+#[derive(Clone, Debug)]
+pub enum Item {
+    Row(String, Vec<Val>),
+    /// (table, SQL) of a constraint added later
+    Con(String, String),
 }
 
 #[derive(Clone, Debug)]
@@ -62,7 +76,7 @@ pub enum Op {
 #[derive(Clone, Debug)]
 pub struct Setup {
     pub tables: Vec<Table>,
-    pub rows: Vec<(String, Vec<Val>)>,
+    pub items: Vec<Item>,
     pub fresh: bool,
 }
 
@@ -89,16 +103,56 @@ fn ident(s: &str) -> bool {
     !s.is_empty() && s.chars().all(|c| c.is_ascii_lowercase() || c.is_ascii_digit()) && s.chars().next().unwrap().is_ascii_lowercase()
 }
 
+fn col_idx(t: &Table, name: &str) -> Option<usize> {
+    t.cols.iter().position(|c| c.name == name)
+}
+
+/// `a+b` → (false, [a, b]); `^a+b` → (true, …); all columns must exist
+fn parse_group(t: &Table, g: &str) -> Option<(bool, Vec<String>, Vec<usize>)> {
+    let (pk, body) = match g.strip_prefix('^') {
+        Some(r) => (true, r),
+        None => (false, g),
+    };
+    let names: Vec<String> = body.split('+').map(|x| x.to_string()).collect();
+    let idxs: Option<Vec<usize>> = names.iter().map(|n| col_idx(t, n)).collect();
+    let idxs = idxs?;
+    if idxs.is_empty() {
+        return None;
+    }
+    Some((pk, names, idxs))
+}
+
+fn register_key(t: &mut Table, pk: bool, idxs: &[usize]) {
+    if pk {
+        for i in idxs {
+            if !t.not_null.contains(i) {
+                t.not_null.push(*i);
+            }
+        }
+    }
+    t.key_sets.push(idxs.to_vec());
+}
+
 fn parse_table(spec: &str) -> Option<Table> {
-    // tab=t(k:big*,v:int!)
-    let (name, rest) = spec.split_once('(')?;
+    // tab=t(k:big*,v:int!/a+b/^a)
+    let parts: Vec<&str> = spec.split('(').collect();
+    if parts.len() != 2 {
+        return None;
+    }
+    let (name, rest) = (parts[0], parts[1]);
     let rest = rest.strip_suffix(')')?;
     if !ident(name) {
         return None;
     }
+    let mut groups = rest.split('/');
+    let cols_s = groups.next()?;
     let mut cols = Vec::new();
-    for c in rest.split(',') {
-        let (cn, ty) = c.split_once(':')?;
+    for c in cols_s.split(',') {
+        let cparts: Vec<&str> = c.split(':').collect();
+        if cparts.len() != 2 {
+            return None;
+        }
+        let (cn, ty) = (cparts[0], cparts[1]);
         let mut ty = ty.to_string();
         let mut not_null = false;
         let mut unique = false;
@@ -121,11 +175,27 @@ fn parse_table(spec: &str) -> Option<Table> {
     if cols.is_empty() {
         return None;
     }
-    Some(Table { name: name.to_string(), cols })
+    let mut t = Table { name: name.to_string(), cols, keys: vec![], not_null: vec![], key_sets: vec![] };
+    for (i, c) in t.cols.clone().iter().enumerate() {
+        if c.not_null {
+            t.not_null.push(i);
+        }
+    }
+    for (i, c) in t.cols.clone().iter().enumerate() {
+        if c.unique {
+            t.key_sets.push(vec![i]);
+        }
+    }
+    for g in groups {
+        let (pk, names, idxs) = parse_group(&t, g)?;
+        register_key(&mut t, pk, &idxs);
+        t.keys.push((pk, names));
+    }
+    Some(t)
 }
 
 fn parse_setup(s: &str) -> Option<Setup> {
-    let mut st = Setup { tables: vec![], rows: vec![], fresh: false };
+    let mut st = Setup { tables: vec![], items: vec![], fresh: false };
     for w in s.split_whitespace() {
         if w == "fresh" {
             st.fresh = true;
@@ -133,9 +203,41 @@ fn parse_setup(s: &str) -> Option<Setup> {
             st.tables.push(parse_table(t)?);
         } else if let Some(r) = w.strip_prefix("row=") {
             // row=t:1,10
-            let (t, vs) = r.split_once(':')?;
-            let vals: Option<Vec<Val>> = vs.split(',').map(parse_val).collect();
-            st.rows.push((t.to_string(), vals?));
+            let parts: Vec<&str> = r.split(':').collect();
+            if parts.len() != 2 {
+                return None;
+            }
+            let vals: Option<Vec<Val>> = parts[1].split(',').map(parse_val).collect();
+            st.items.push(Item::Row(parts[0].to_string(), vals?));
+        } else if let Some(r) = w.strip_prefix("con=") {
+            // con=t:a+b | con=t:^a | con=t:@a+b | con=t:!v     (the first table of that name)
+            let parts: Vec<&str> = r.split(':').collect();
+            if parts.len() != 2 {
+                return None;
+            }
+            let t = st.tables.iter_mut().find(|t| t.name == parts[0])?;
+            let c = parts[1];
+            let sql = if let Some(col) = c.strip_prefix('!') {
+                let i = col_idx(t, col)?;
+                if !t.not_null.contains(&i) {
+                    t.not_null.push(i);
+                }
+                format!("ALTER TABLE {} ALTER COLUMN {} SET NOT NULL", t.name, col)
+            } else if let Some(g) = c.strip_prefix('@') {
+                let (pk, names, idxs) = parse_group(t, g)?;
+                register_key(t, pk, &idxs);
+                format!("CREATE UNIQUE INDEX ix{}{} ON {} ({})", t.name, names.join(""), t.name, names.join(", "))
+            } else {
+                let (pk, names, idxs) = parse_group(t, c)?;
+                register_key(t, pk, &idxs);
+                format!(
+                    "ALTER TABLE {} ADD CONSTRAINT {} ({})",
+                    t.name,
+                    if pk { "PRIMARY KEY" } else { "UNIQUE" },
+                    names.join(", ")
+                )
+            };
+            st.items.push(Item::Con(parts[0].to_string(), sql));
         } else {
             return None;
         }
@@ -281,6 +383,9 @@ fn sql_create(t: &Table) -> String {
         }
     }
     cols.extend(uniq);
+    for (pk, names) in &t.keys {
+        cols.push(format!("{} ({})", if *pk { "PRIMARY KEY" } else { "UNIQUE" }, names.join(", ")));
+    }
     format!("CREATE TABLE {} ({})", t.name, cols.join(", "))
 }
 
@@ -316,13 +421,47 @@ fn show_dt(d: &DataType) -> String {
     }
 }
 
+/// do the observed committed contents of a table violate one of its constraints?
+fn rows_violate(t: &Table, cells: &[Vec<String>]) -> bool {
+    for r in cells {
+        for i in &t.not_null {
+            if r.get(*i).map(|x| x == "null").unwrap_or(true) {
+                return true;
+            }
+        }
+    }
+    for ks in &t.key_sets {
+        let keys: Vec<Vec<&String>> = cells.iter().map(|r| ks.iter().filter_map(|i| r.get(*i)).collect()).collect();
+        for a in 0..keys.len() {
+            if keys[a].iter().any(|x| *x == "null") {
+                continue;
+            }
+            for b in a + 1..keys.len() {
+                if keys[a] == keys[b] {
+                    return true;
+                }
+            }
+        }
+    }
+    false
+}
+
 fn show_result(r: Result<QueryResult, String>, is_read: bool, diag: &mut Vec<String>) -> String {
+    show_result_chk(r, is_read, diag, None)
+}
+
+/// `chk`: the table whose full committed contents this result is (then the constraints are checked on it)
+fn show_result_chk(r: Result<QueryResult, String>, is_read: bool, diag: &mut Vec<String>, chk: Option<&Table>) -> String {
     match r {
         Ok(QueryResult::Rows(rows)) => {
-            let mut out: Vec<String> =
-                rows.iterrows().map(|r| r.iter().map(show_dt).collect::<Vec<_>>().join(",")).collect();
+            let cells: Vec<Vec<String>> = rows.iterrows().map(|r| r.iter().map(show_dt).collect::<Vec<_>>()).collect();
+            let mut out: Vec<String> = cells.iter().map(|r| r.join(",")).collect();
             out.sort();
-            format!("[{}]", out.join(";"))
+            let pf = match chk {
+                Some(t) if rows_violate(t, &cells) => format!("!PROPFAIL:constraint:{}", t.name),
+                _ => String::new(),
+            };
+            format!("[{}]{}", out.join(";"), pf)
         }
         Ok(QueryResult::RowsAffected(n)) => {
             if is_read { format!("?affected{}", n) } else { format!("ok{}", n) }
@@ -337,7 +476,63 @@ fn show_result(r: Result<QueryResult, String>, is_read: bool, diag: &mut Vec<Str
 
 static COUNTER: AtomicU64 = AtomicU64::new(0);
 
+fn run_raw(line: &str) -> String {
+    let dir = std::env::temp_dir().join(format!("axv-hist-raw-{}-{}", std::process::id(), COUNTER.fetch_add(1, Ordering::SeqCst)));
+    let _ = std::fs::remove_dir_all(&dir);
+    std::fs::create_dir_all(&dir).unwrap();
+    let db = Database::create(dir.join("db.axm"), DBConfig::default()).unwrap();
+    let mut outs = Vec::new();
+    let mut diag = Vec::new();
+    for sql in line[4..].split(';') {
+        let sql = sql.trim();
+        if sql.is_empty() { continue; }
+        let r = db.execute(sql).map_err(|e| e.to_string());
+        let is_sel = sql.to_ascii_lowercase().starts_with("select");
+        if let Err(e) = &r { outs.push(format!("ERR<{}>", e.chars().take(90).collect::<String>())); } else { outs.push(show_result(r, is_sel, &mut diag)); }
+    }
+    drop(db);
+    let _ = std::fs::remove_dir_all(&dir);
+    outs.join(" | ")
+}
+
+/// The library prints to stdout on some DDL statements (`CREATE UNIQUE INDEX`); stdout is the line protocol of
+/// `axh exec`, so it points to /dev/null while a case runs.
+struct QuietStdout {
+    saved: i32,
+}
+impl QuietStdout {
+    fn new() -> QuietStdout {
+        use std::io::Write;
+        let _ = std::io::stdout().flush();
+        unsafe {
+            let saved = libc::dup(1);
+            let null = libc::open(b"/dev/null\0".as_ptr() as *const libc::c_char, libc::O_WRONLY);
+            if null >= 0 {
+                libc::dup2(null, 1);
+                libc::close(null);
+            }
+            QuietStdout { saved }
+        }
+    }
+}
+impl Drop for QuietStdout {
+    fn drop(&mut self) {
+        use std::io::Write;
+        let _ = std::io::stdout().flush();
+        unsafe {
+            if self.saved >= 0 {
+                libc::dup2(self.saved, 1);
+                libc::close(self.saved);
+            }
+        }
+    }
+}
+
 pub fn run_case(line: &str) -> String {
+    let _quiet = QuietStdout::new();
+    if line.starts_with("raw ") && std::env::var("AXH_RAWSQL").is_ok() {
+        return run_raw(line);
+    }
     let Some((setup, ops)) = parse_case(line) else { return "bad-op".into() };
     let dir = std::env::temp_dir().join(format!("axv-hist-{}-{}", std::process::id(), COUNTER.fetch_add(1, Ordering::SeqCst)));
     let _ = std::fs::remove_dir_all(&dir);
@@ -363,9 +558,12 @@ fn run_in(dir: &std::path::Path, setup: &Setup, ops: &[Op]) -> String {
         // warm-up: make sure some transaction with id > 0 has committed
         let _ = db.execute("CREATE TABLE warmupzz (k BIGINT)");
     }
-    for (t, vals) in &setup.rows {
-        let s = Stmt::Ins { table: t.clone(), rows: vec![vals.clone()] };
-        if let Err(e) = db.execute(&sql_of(&s)) {
+    for it in &setup.items {
+        let sql = match it {
+            Item::Row(t, vals) => sql_of(&Stmt::Ins { table: t.clone(), rows: vec![vals.clone()] }),
+            Item::Con(_, sql) => sql.clone(),
+        };
+        if let Err(e) = db.execute(&sql) {
             return format!("bad-setup ## {}", e);
         }
     }
@@ -427,7 +625,11 @@ fn run_in(dir: &std::path::Path, setup: &Setup, ops: &[Op]) -> String {
             },
             Op::Auto(st) => {
                 let r = db.execute(&sql_of(st)).map_err(|e| e.to_string());
-                show_result(r, matches!(st, Stmt::Sel { .. }), &mut diag)
+                let chk = match st {
+                    Stmt::Sel { table, pred: None } => setup.tables.iter().find(|t| &t.name == table),
+                    _ => None,
+                };
+                show_result_chk(r, matches!(st, Stmt::Sel { .. }), &mut diag, chk)
             }
             Op::Batch(sts) => {
                 let sqls: Vec<String> = sts.iter().map(sql_of).collect();
@@ -455,7 +657,7 @@ fn run_in(dir: &std::path::Path, setup: &Setup, ops: &[Op]) -> String {
     let mut fin: Vec<String> = Vec::new();
     for t in &setup.tables {
         let r = db.execute(&format!("SELECT * FROM {}", t.name)).map_err(|e| e.to_string());
-        fin.push(format!("{}={}", t.name, show_result(r, true, &mut diag)));
+        fin.push(format!("{}={}", t.name, show_result_chk(r, true, &mut diag, Some(t))));
     }
     drop(db);
     let mut line = format!("{} | {}", outs.join(" "), fin.join(" "));
